@@ -324,6 +324,8 @@ CFG = {
     "WeakRef": lambda: T.WeakRef(Foo), "Button": lambda: T.Button(), "DynRange": lambda: T.Range("lo", "hi"),
     "DynEnum": lambda: T.Enum(values="vals"), "Expression": lambda: T.Expression(), "ListList": lambda: T.List(T.List(T.Int)),
     "EitherMap": lambda: T.Either(T.Map({"yes": 1}), T.Int),
+    "AnyCmpNone": lambda: T.Any(comparison_mode=T.ComparisonMode.none), "IntCmpIdentity": lambda: T.Int(comparison_mode=T.ComparisonMode.identity),
+    "ListCmpNone": lambda: T.List(T.Int, comparison_mode=T.ComparisonMode.none), "ReadOnly5": lambda: T.ReadOnly(5),
 }
 NONTRIVIAL_DEFS = {"Delegate", "Proto", "PropPlain", "PropValidated", "PropType", "Either", "Union", "Trait", "TraitNoneFoo", "Map",
                    "PrefixMap", "List", "Dict", "Set", "ListList", "WeakRef", "DynRange", "DynEnum", "EitherMap", "Tuple", "Supports"}
